@@ -156,6 +156,8 @@ class Treeifier:
                 if float(pv) == 0.5:
                     return {"t": "sqrt", "a": self.tree(b)}
             raise OutOfModel("non-integer power")
+        if isinstance(e, (uc.Sqrt, uc.Abs)):
+            self.has_cond = True          # needs the scan for irrational / knife-edge values
         if isinstance(e, uc.Sqrt):
             return {"t": "sqrt", "a": self.tree(e.ufl_operands[0])}
         if isinstance(e, uc.Abs):
